@@ -1,6 +1,6 @@
 #!/bin/bash
 # ./pretest.sh <patch>...   development tool: apply each patch to /repo, rebuild, run only the
-# statement-level preemption profiles (quick budgets), revert. Evidence goes to a scratch directory.
+# statement-level preemption profiles (quick budgets; PROFILES="C08 concurrent-pre,C08 concurrent-race" selects others), revert. Evidence goes to a scratch directory.
 set -u
 cd "$(dirname "$0")"
 export GOFLAGS=-mod=mod GOPROXY=off GOSUMDB=off GOTOOLCHAIN=local
@@ -9,7 +9,8 @@ for P in "$@"; do
   echo "== $P"
   git -C /repo apply "$PWD/$P" 2>/dev/null || git -C /repo apply --3way "$PWD/$P" 2>/dev/null || { echo "  apply failed"; git -C /repo reset -q --hard; continue; }
   if ./check --build >/dev/null 2>&1; then
-    for pr in "C03 concurrent-pre" "C07 concurrent-pre" "C10 concurrent-pre" "C14 lru-concurrent-pre" "C14 router-concurrent-pre"; do
+    IFS=, read -ra PRS <<< "${PROFILES:-C03 concurrent-pre,C07 concurrent-pre,C08 concurrent-pre,C10 concurrent-pre,C14 lru-concurrent-pre,C14 router-concurrent-pre}"
+    for pr in "${PRS[@]}"; do
       set -- $pr
       RUXSIM_VERIF_DIR="$S" RUXSIM_BIN_DIR="$PWD/out/bin" out/bin/ruxsim check -prop $1 -profile $2 -tier quick > "$S/log" 2>&1
       echo "  $1/$2 exit=$? $(grep -c '^VIOLATION' "$S/log") VIOLATION lines $(grep -m1 '^violation' "$S/log")"
